@@ -497,6 +497,58 @@ def r19i(ctx: Context) -> None:
     _ = func
 
 
+STATE_MUTATORS = {"add", "update", "append", "extend", "insert", "pop", "remove", "clear", "discard", "setdefault", "popitem", "sort", "reverse"}
+
+
+def r19j(ctx: Context) -> None:
+    """'Independent of the order of the arguments': what one argument selects may depend on that
+    argument, the flags and the file system only.  Apart from the result set itself (whose adds
+    commute) and the error flag, nothing that is changed while one argument is expanded may be
+    visible when the next one is."""
+    prog = ctx.prog
+    rule = ctx.rule("R19j", "arguments are expanded independently: no mutable state besides the result set is shared between them", 2)
+    func, set_name = discovery_set(prog)
+    loops = [n for n in func.node.body if isinstance(n, ast.For)]
+    if not loops:
+        raise AnalysisError("determine_files_to_scan: the loop over the path arguments was not found")
+    loop = loops[0]
+    before = {}
+    for stmt in func.node.body:
+        if stmt is loop:
+            break
+        for node in ast.walk(stmt):
+            targets = node.targets if isinstance(node, ast.Assign) else [node.target] if isinstance(node, ast.AnnAssign) and node.value is not None else []
+            for target in targets:
+                if isinstance(target, ast.Name):
+                    before[target.id] = node
+    used_in_loop = {n.id for n in ast.walk(loop) if isinstance(n, ast.Name)}
+    scanner = prog.cls(AFS)
+    for name in sorted(set(before) & used_in_loop):
+        typ = prog.env_of(func).get(name)
+        key = f"{func.short}: {name}"
+        if name == set_name:
+            rule.ok(key, "the result set")
+            continue
+        if not (typ and typ[0] in ("set", "list", "dict")):
+            continue
+        carriers = forward_taint(prog, [(func, name)], any_expression=False)
+        mutation = None
+        for method in scanner.methods.values():
+            names = carriers.get(method.qualname, set())
+            for node in walk_local(method.node):
+                if isinstance(node, ast.Call) and isinstance(node.func, ast.Attribute) and node.func.attr in STATE_MUTATORS and isinstance(node.func.value, ast.Name) and node.func.value.id in names:
+                    mutation = (method, node)
+                elif isinstance(node, (ast.Assign, ast.AugAssign, ast.Delete)):
+                    targets = node.targets if isinstance(node, (ast.Assign, ast.Delete)) else [node.target]
+                    for target in targets:
+                        if isinstance(target, ast.Subscript) and isinstance(target.value, ast.Name) and target.value.id in names:
+                            mutation = (method, node)
+        if mutation is None:
+            rule.ok(key, "read-only while the arguments are expanded")
+        else:
+            rule.fail(key, where(mutation[0], mutation[1]), f"'{name}' is created once, changed while one argument is expanded ({mutation[0].short}: '{norm(mutation[1])[:60]}') and consulted for the next: the selection depends on which arguments came before")
+
+
 def run(ctx: Context) -> None:
     r19a(ctx)
     r19b(ctx)
@@ -508,3 +560,4 @@ def run(ctx: Context) -> None:
     r19g(ctx)
     r19h(ctx)
     r19i(ctx)
+    r19j(ctx)
